@@ -42,7 +42,13 @@ pub fn phases(prop: &str, tier: Tier) -> Vec<Phase> {
             Phase { name: "c03-sweep", units: 14, seeded: false },
             Phase { name: "foreign-seeded", units: if q { 500 } else { 60_000 }, seeded: true },
         ],
-        "C01" | "C02" | "C04" | "C18" => vec![
+        "C18" => vec![
+            Phase { name: "rt-grid", units: 13, seeded: false },
+            Phase { name: "c18-user-shape", units: 1, seeded: false },
+            Phase { name: "rt-large", units: 3, seeded: false },
+            Phase { name: "rt-seeded", units: if q { 1500 } else { 150_000 }, seeded: true },
+        ],
+        "C01" | "C02" | "C04" => vec![
             Phase { name: "rt-grid", units: 13, seeded: false },
             Phase { name: "rt-large", units: 3, seeded: false },
             Phase { name: "rt-seeded", units: if q { 1500 } else { 150_000 }, seeded: true },
@@ -55,6 +61,7 @@ pub fn phases(prop: &str, tier: Tier) -> Vec<Phase> {
         ],
         "C09" => vec![
             Phase { name: if q { "c09-sweep4" } else { "c09-sweep6" }, units: 78, seeded: false },
+            Phase { name: "c09-big-file", units: 2, seeded: false },
             Phase { name: "hw-seeded", units: if q { 1000 } else { 150_000 }, seeded: true },
         ],
         "C10" => vec![
@@ -164,6 +171,8 @@ pub fn run_unit(prop: &str, phase: &str, unit: u64, seed: u64, _tier: Tier, ctx:
         }
         "c09-sweep4" => crate::fam_histw::c09_sweep_unit(unit, 4, ctx, ctl),
         "c09-sweep6" => crate::fam_histw::c09_sweep_unit(unit, 6, ctx, ctl),
+        "c18-user-shape" => crate::fam_histw::user_unit(0, ctx, ctl),
+        "c09-big-file" => crate::fam_histw::user_unit(1 + unit, ctx, ctl),
         "c10-user-shape" => crate::fam_histw::fake_unit(unit, ctx, ctl),
         "c10-sweep3" => crate::fam_histw::c10_sweep_unit(unit, 3, ctx, ctl),
         "c10-sweep5" => crate::fam_histw::c10_sweep_unit(unit, 5, ctx, ctl),
